@@ -788,17 +788,26 @@ func c09Helpers(rc *RC) {
 	peer.Daemon = true
 	var herr error
 	hdone := false
+	var hcancel context.CancelFunc
 	ht := rc.Spawn("helper", func() {
 		ctx, cancel := context.WithTimeout(e.Ctx, 10*time.Second)
 		if noDeadline {
 			ctx, cancel = context.WithCancel(e.Ctx)
 		}
+		hcancel = cancel
 		defer cancel()
 		herr = h.call(ctx, e.Sess)
 		hdone = true
 	})
 	st := rc.S.Run(func() bool { return ht.Done() }, 200000, time.Minute)
 	_ = herr
+	if !ht.Done() && e.ServeDone && noDeadline && hcancel != nil {
+		// the reply broke the stream and Serve has returned: a request the helper sent afterwards (the next page) can
+		// only end through its context, and this one has no deadline. The application ends it when its session is over.
+		rc.S.Probes["helper-context-ended-after-serve-returned"]++
+		simrt.Settle(hcancel, "h:cancel")
+		st = rc.S.Run(func() bool { return ht.Done() }, 200000, time.Minute)
+	}
 	// c4: every helper call returns a value or an error
 	rc.Evals["C09.c4"]++
 	if !hdone && ht.Panic == nil {
